@@ -17,18 +17,19 @@ import (
 	"io"
 	"io/fs"
 	"net/http"
+	"net/url"
 	"os"
 	"strings"
 	"sync"
 	"time"
 
-	"github.com/go-chi/chi"
 	"go.amzn.com/lambda/appctx"
 	"go.amzn.com/lambda/core"
 	"go.amzn.com/lambda/extensions"
 	"go.amzn.com/lambda/fatalerror"
 	"go.amzn.com/lambda/interop"
 	"go.amzn.com/lambda/metering"
+	"go.amzn.com/lambda/rapi"
 	"go.amzn.com/lambda/rapi/handler"
 	"go.amzn.com/lambda/rapi/middleware"
 	"go.amzn.com/lambda/rapi/model"
@@ -377,6 +378,7 @@ type verifWorld struct {
 	hAExitE                                                http.Handler
 	hRNext                                                 http.Handler
 	hRErr                                                  http.Handler
+	rtRouter, extRouter                                    http.Handler
 	initReq                                                *interop.Init
 	sbInfo                                                 interop.SandboxInfoFromInit
 	reqBuf                                                 *bytes.Buffer
@@ -507,6 +509,10 @@ func newVerifWorldWith(iop interop.Server, entries []verifDirEntry, standalone b
 	w.hAExitE = mw(middleware.AgentUniqueIdentifierHeaderValidator(handler.NewAgentExitErrorHandler(registrationService)))
 	w.hRNext = mw(handler.NewRestoreNextHandler(registrationService, renderingService))
 	w.hRErr = mw(handler.NewRestoreErrorHandler(registrationService))
+	// the real chi routers with their middleware chains (what rapi.NewServer mounts under /2018-06-01)
+	appctx.StoreInitType(appCtx, initCaching)
+	w.rtRouter = rapi.NewRouter(appCtx, registrationService, renderingService)
+	w.extRouter = rapi.ExtensionsRouter(appCtx, registrationService, renderingService)
 
 	e := env.NewEnvironment()
 	e.StoreRuntimeAPIEnvironmentVariable("127.0.0.1:9001")
@@ -529,31 +535,41 @@ func newVerifWorldWith(iop interop.Server, entries []verifDirEntry, standalone b
 // ---------------------------------------------------------------------------
 // API calls made by scripted processes
 
-func (w *verifWorld) call(h http.Handler, method string, hdr http.Header, body []byte, urlParams map[string]string) *verifRec {
+// call sends a request through the real router (routing, URL parameters and middleware chain
+// are the implementation's); path is relative to the API version prefix.
+func (w *verifWorld) call(path string, method string, hdr http.Header, body []byte) *verifRec {
 	rec := newVerifRec()
 	if hdr == nil {
 		hdr = http.Header{}
 	}
-	r := &http.Request{Method: method, Header: hdr, Body: io.NopCloser(bytes.NewReader(body))}
-	rctx := chi.NewRouteContext()
-	for k, v := range urlParams {
-		rctx.URLParams.Add(k, v)
+	r := &http.Request{Method: method, URL: &url.URL{Path: path}, Header: hdr, Body: io.NopCloser(bytes.NewReader(body))}
+	r = r.WithContext(context.Background())
+	if strings.HasPrefix(path, "/extension/") {
+		w.extRouter.ServeHTTP(rec, r)
+	} else {
+		w.rtRouter.ServeHTTP(rec, r)
 	}
-	r = r.WithContext(context.WithValue(context.Background(), chi.RouteCtxKey, rctx))
-	h.ServeHTTP(rec, r)
+	return rec
+}
+
+// callDirect calls a handler that is not mounted on the two routers (credentials endpoint)
+func (w *verifWorld) callDirect(h http.Handler, method string, hdr http.Header) *verifRec {
+	rec := newVerifRec()
+	r := &http.Request{Method: method, URL: &url.URL{Path: "/"}, Header: hdr, Body: io.NopCloser(bytes.NewReader(nil))}
+	h.ServeHTTP(rec, r.WithContext(context.Background()))
 	return rec
 }
 
 func (w *verifWorld) runtimeNext(who string) *verifRec {
 	w.note(who, "next-issued", "")
-	rec := w.call(w.hNext, "GET", nil, nil, nil)
+	rec := w.call("/runtime/invocation/next", "GET", nil, nil)
 	w.note(who, "next-returned", fmt.Sprint(rec.status))
 	return rec
 }
 
 func (w *verifWorld) runtimeResponse(who, id string, payload []byte) *verifRec {
 	w.note(who, "response-issued", id)
-	rec := w.call(w.hResp, "POST", nil, payload, map[string]string{"awsrequestid": id})
+	rec := w.call("/runtime/invocation/"+id+"/response", "POST", nil, payload)
 	w.note(who, "response-returned", fmt.Sprint(rec.status))
 	return rec
 }
@@ -562,7 +578,7 @@ func (w *verifWorld) runtimeError(who, id string, errType string, payload []byte
 	h := http.Header{}
 	h.Set("Lambda-Runtime-Function-Error-Type", errType)
 	w.note(who, "error-issued", id)
-	rec := w.call(w.hErr, "POST", h, payload, map[string]string{"awsrequestid": id})
+	rec := w.call("/runtime/invocation/"+id+"/error", "POST", h, payload)
 	w.note(who, "error-returned", fmt.Sprint(rec.status))
 	return rec
 }
@@ -571,7 +587,7 @@ func (w *verifWorld) runtimeInitError(who string, errType string, payload []byte
 	h := http.Header{}
 	h.Set("Lambda-Runtime-Function-Error-Type", errType)
 	w.note(who, "initerror-issued", "")
-	rec := w.call(w.hInitE, "POST", h, payload, nil)
+	rec := w.call("/runtime/init/error", "POST", h, payload)
 	w.note(who, "initerror-returned", fmt.Sprint(rec.status))
 	return rec
 }
@@ -581,7 +597,7 @@ func (w *verifWorld) extRegister(who, name string, events []string) *verifRec {
 	h.Set("Lambda-Extension-Name", name)
 	body, _ := json.Marshal(map[string][]string{"events": events})
 	w.note(who, "register-issued", name)
-	rec := w.call(w.hReg, "POST", h, body, nil)
+	rec := w.call("/extension/register", "POST", h, body)
 	w.note(who, "register-returned", fmt.Sprint(rec.status))
 	return rec
 }
@@ -592,7 +608,7 @@ func (w *verifWorld) extNext(who, identifier string) *verifRec {
 		h.Set("Lambda-Extension-Identifier", identifier)
 	}
 	w.note(who, "next-issued", "")
-	rec := w.call(w.hANext, "GET", h, nil, nil)
+	rec := w.call("/extension/event/next", "GET", h, nil)
 	w.note(who, "next-returned", fmt.Sprint(rec.status))
 	return rec
 }
@@ -601,7 +617,7 @@ func (w *verifWorld) extInitError(who, identifier, errType string) *verifRec {
 	h := http.Header{}
 	h.Set("Lambda-Extension-Identifier", identifier)
 	h.Set("Lambda-Extension-Function-Error-Type", errType)
-	rec := w.call(w.hAInitE, "POST", h, []byte("{}"), nil)
+	rec := w.call("/extension/init/error", "POST", h, []byte("{}"))
 	w.note(who, "ext-initerror-returned", fmt.Sprint(rec.status))
 	return rec
 }
@@ -610,7 +626,7 @@ func (w *verifWorld) extExitError(who, identifier, errType string) *verifRec {
 	h := http.Header{}
 	h.Set("Lambda-Extension-Identifier", identifier)
 	h.Set("Lambda-Extension-Function-Error-Type", errType)
-	rec := w.call(w.hAExitE, "POST", h, []byte("{}"), nil)
+	rec := w.call("/extension/exit/error", "POST", h, []byte("{}"))
 	w.note(who, "ext-exiterror-returned", fmt.Sprint(rec.status))
 	return rec
 }
@@ -998,16 +1014,23 @@ func (a *VerifRuntimeAPI) InitError(errType string, payload []byte) (int, string
 	r := a.w.runtimeInitError(a.p.name, errType, payload)
 	return r.status, string(r.body)
 }
+
+// Raw sends an arbitrary request to the Runtime API router (unknown routes, wrong methods)
+func (a *VerifRuntimeAPI) Raw(method, path string) int {
+	r := a.w.call(path, method, nil, nil)
+	a.w.note(a.p.name, "raw-returned", fmt.Sprint(r.status))
+	return r.status
+}
 func (a *VerifRuntimeAPI) RestoreNext() int {
 	a.w.note(a.p.name, "restorenext-issued", "")
-	r := a.w.call(a.w.hRNext, "GET", nil, nil, nil)
+	r := a.w.call("/runtime/restore/next", "GET", nil, nil)
 	a.w.note(a.p.name, "restorenext-returned", fmt.Sprint(r.status))
 	return r.status
 }
 func (a *VerifRuntimeAPI) RestoreError(errType string) (int, string) {
 	h := http.Header{}
 	h.Set("Lambda-Runtime-Function-Error-Type", errType)
-	r := a.w.call(a.w.hRErr, "POST", h, []byte("{}"), nil)
+	r := a.w.call("/runtime/restore/error", "POST", h, []byte("{}"))
 	a.w.note(a.p.name, "restoreerror-returned", fmt.Sprint(r.status))
 	return r.status, string(r.body)
 }
